@@ -4,7 +4,7 @@ From Coq Require Import Strings.String Strings.Byte.
 From Coq Require Import List Arith NArith ZArith Bool.
 From PV Require Import Base.Bytes Base.Outcome Base.KV Compkey.Model Aol.Model Aol.Query Bank.Model Did.Model Pnft.Model Chain.Model Keystore.Load Driver.Tok.
 From PV Require Generated.GenNft.
-From PV Require Pagination.Model.
+From PV Require Pagination.Model Pnft.Query.
 Import ListNotations.
 
 Record pending := {
@@ -523,11 +523,8 @@ Definition pnft_q (st : dstate) (ts : list tok) : option (list bytes) :=
       if tok_is kind "pnft.Denoms" then
         match page_req_of_toks args with
         | Some req =>
-            let items := Aol.Query.sub_store GenNft.nft_class_key ps in
-            let on (_ : bytes) (v : nft_val) : outcome bytes :=
-              match v with VClass d => Ok (denom_str d) | _ => Err (b "x") 1 end in
-            match Pagination.Model.paginate_with on items req with
-            | Ok (l, pr) => Some [join_toks [b "Q"; b "ok"; b "L" ++ cat "," l;
+            match Pnft.Query.q_denoms ps req with
+            | Ok (l, pr) => Some [join_toks [b "Q"; b "ok"; b "L" ++ cat "," (map denom_str l);
                                              match Pagination.Model.pg_next_key pr with Some (c :: k) => to_hex (c :: k) | _ => b "nil" end;
                                              print_dec (Pagination.Model.pg_total pr)]]
             | Err _ _ => Some [b "Q err 2"]
